@@ -191,6 +191,13 @@ func c19Batch(rep *vk.Report, b int, fam string, srv *c18Server) {
 					cs.Steps[k].Mode = ""
 				}
 			}
+			if r.IntN(4) == 0 {
+				// a firing hedge around the retry policy: the slow primary attempt is overtaken by a hedge branch that has a
+				// response retried inside it and then wins
+				cs.Stack = "hedge!>retry"
+				cs.Steps = []srvStep{{Status: 200, Mode: "delayed", Size: 10}, {Status: vk.Pick(r, 503, 429, 500), Size: vk.Pick(r, 0, 5000)}, {Status: 200, Size: 10}}
+				cs.BodyKind, cs.BodySize = "nil", 0
+			}
 			id := fmt.Sprintf("l%d-%d-%d", b, i, c18Ids.Add(1))
 			call := &srvCall{steps: cs.Steps}
 			srv.calls.Store(id, call)
